@@ -5,6 +5,6 @@ CONSTANTS
   Recheck = FALSE
 INIT MInit
 NEXT MNext
-INVARIANTS TypeOK LockOK Injective CountersMatch RepliesAgree
+INVARIANTS TypeOK LockOK Injective CountersMatch RepliesAgree NoOrphans
 PROPERTIES Stable
 CHECK_DEADLOCK FALSE
